@@ -316,4 +316,99 @@ pub mod vx_export {
         let in_db = match db.get::<Azks>(&crate::append_only_zks::DEFAULT_AZKS_KEY).await.map_err(AkdError::Storage)? { DbRecord::Azks(a) => a.latest_epoch, _ => 0 };
         Ok((via_manager, in_db))
     }
+
+    // ---- C10: fault injection at every database operation of a publish
+    #[derive(Clone)]
+    pub struct FaultyDb { inner: AsyncInMemoryDatabase, ops: Arc<std::sync::atomic::AtomicI64>, fail_at: Arc<std::sync::atomic::AtomicI64> }
+    impl FaultyDb {
+        fn tick(&self, what: &str) -> Result<(), StorageError> {
+            let n = self.ops.fetch_add(1, Ordering::SeqCst);
+            if n == self.fail_at.load(Ordering::SeqCst) { Err(StorageError::Connection(format!("injected fault at database operation {n} ({what})"))) } else { Ok(()) }
+        }
+    }
+    #[async_trait::async_trait]
+    impl Database for FaultyDb {
+        async fn set(&self, record: DbRecord) -> Result<(), StorageError> { self.tick("set")?; self.inner.set(record).await }
+        async fn batch_set(&self, records: Vec<DbRecord>, state: DbSetState) -> Result<(), StorageError> { self.tick("batch_set")?; self.inner.batch_set(records, state).await }
+        async fn get<St: Storable>(&self, id: &St::StorageKey) -> Result<DbRecord, StorageError> { self.tick("get")?; self.inner.get::<St>(id).await }
+        async fn batch_get<St: Storable>(&self, ids: &[St::StorageKey]) -> Result<Vec<DbRecord>, StorageError> { self.tick("batch_get")?; self.inner.batch_get::<St>(ids).await }
+        async fn get_user_data(&self, username: &AkdLabel) -> Result<KeyData, StorageError> { self.tick("get_user_data")?; self.inner.get_user_data(username).await }
+        async fn get_user_state(&self, username: &AkdLabel, flag: ValueStateRetrievalFlag) -> Result<ValueState, StorageError> { self.tick("get_user_state")?; self.inner.get_user_state(username, flag).await }
+        async fn get_user_state_versions(&self, usernames: &[AkdLabel], flag: ValueStateRetrievalFlag) -> Result<HashMap<AkdLabel, (u64, AkdValue)>, StorageError> {
+            self.tick("get_user_state_versions")?; self.inner.get_user_state_versions(usernames, flag).await
+        }
+    }
+    pub struct C10Outcome {
+        pub ops_in_publish: i64, pub publish_err: Option<String>, pub epoch_before: u64, pub epoch_after: u64, pub hash_unchanged: bool,
+        pub txn_left_open: bool, pub old_value_still_proved: bool, pub retry_ok: bool, pub final_matches_reference: bool,
+    }
+    fn c10_batch(i: usize) -> Vec<(AkdLabel, AkdValue)> {
+        let kv = |k: &str, v: &str| (AkdLabel::from(k), AkdValue::from(v));
+        match i { 0 => vec![kv("a", "a1"), kv("b", "b1")], _ => vec![kv("a", "a2"), kv("c", "c1")] }
+    }
+    /// C10 witness: publish batch 0, then publish batch 1 while the k-th database operation of that call fails (k counted from 0 over
+    /// reads and writes; k beyond the number of operations = no fault), with (`cache`) or without the object cache; then observe the
+    /// directory through the same instance, retry the publish and compare with a fault-free reference run.
+    pub async fn c10_fault_at<TC: Configuration>(cache: bool, k: i64) -> Result<C10Outcome, AkdError> {
+        use std::sync::atomic::AtomicI64;
+        let mk = |db: FaultyDb| if cache { StorageManager::new(db, None, None, None) } else { StorageManager::new_no_cache(db) };
+        let vrf = HardCodedAkdVRF {};
+        // reference
+        let rdb = FaultyDb { inner: AsyncInMemoryDatabase::new(), ops: Arc::new(AtomicI64::new(0)), fail_at: Arc::new(AtomicI64::new(-1)) };
+        let rdir = Directory::<TC, _, _>::new(mk(rdb), vrf.clone(), AzksParallelismConfig::disabled()).await?;
+        rdir.publish(c10_batch(0)).await?;
+        rdir.publish(c10_batch(1)).await?;
+        let reference = rdir.get_epoch_hash().await?;
+        // faulty run
+        let db = FaultyDb { inner: AsyncInMemoryDatabase::new(), ops: Arc::new(AtomicI64::new(0)), fail_at: Arc::new(AtomicI64::new(-1)) };
+        let storage = mk(db.clone());
+        let dir = Directory::<TC, _, _>::new(storage.clone(), vrf.clone(), AzksParallelismConfig::disabled()).await?;
+        dir.publish(c10_batch(0)).await?;
+        let before = dir.get_epoch_hash().await?;
+        db.ops.store(0, Ordering::SeqCst);
+        db.fail_at.store(k, Ordering::SeqCst);
+        let r = dir.publish(c10_batch(1)).await;
+        let ops_in_publish = db.ops.load(Ordering::SeqCst);
+        db.fail_at.store(-1, Ordering::SeqCst);
+        let txn_left_open = storage.is_transaction_active();
+        let after = dir.get_epoch_hash().await?;
+        let pk = dir.get_public_key().await?;
+        let old_value_still_proved = match dir.lookup(AkdLabel::from("a")).await {
+            Ok((proof, eh)) => match lookup_verify::<TC>(pk.as_bytes(), eh.hash(), eh.epoch(), AkdLabel::from("a"), proof) {
+                Ok(res) => eh.epoch() == before.epoch() && res.value == AkdValue::from("a1") && res.version == 1,
+                Err(_) => false,
+            },
+            Err(_) => false,
+        };
+        let retry = dir.publish(c10_batch(1)).await;
+        let fin = dir.get_epoch_hash().await?;
+        Ok(C10Outcome {
+            ops_in_publish, publish_err: r.as_ref().err().map(|e| e.to_string()), epoch_before: before.epoch(), epoch_after: after.epoch(),
+            hash_unchanged: before.hash() == after.hash(), txn_left_open, old_value_still_proved, retry_ok: retry.is_ok(),
+            final_matches_reference: fin.epoch() == reference.epoch() && fin.hash() == reference.hash(),
+        })
+    }
+
+    /// C09 chain witness: directory A publishes {a,b} then {c}; directory B publishes {b} then {c} (it never held a). The audit
+    /// (hashes of A for epochs 0,1 - then B's hash for epoch 2; proof 0->1 from A, proof 1->2 from B) claims a history in which
+    /// epoch 2 does not descend from epoch 1. Returns Ok(true) iff audit_verify ACCEPTS it; every proof of a chain must reproduce ITS start hash.
+    pub async fn c09_chain_splice<TC: Configuration>() -> Result<bool, AkdError> {
+        let vrf = HardCodedAkdVRF {};
+        let kv = |k: &str, v: &str| (AkdLabel::from(k), AkdValue::from(v));
+        let a = Directory::<TC, _, _>::new(StorageManager::new_no_cache(AsyncInMemoryDatabase::new()), vrf.clone(), AzksParallelismConfig::disabled()).await?;
+        let b = Directory::<TC, _, _>::new(StorageManager::new_no_cache(AsyncInMemoryDatabase::new()), vrf.clone(), AzksParallelismConfig::disabled()).await?;
+        let h0 = a.get_epoch_hash().await?;
+        let a1 = a.publish(vec![kv("a", "1"), kv("b", "1")]).await?;
+        let a2 = a.publish(vec![kv("c", "1")]).await?;
+        let _ = b.publish(vec![kv("b", "1")]).await?;
+        let b2 = b.publish(vec![kv("c", "1")]).await?;
+        let pa = a.audit(0, 2).await?;
+        let pb = b.audit(1, 2).await?;
+        // honest chain of A verifies
+        if crate::auditor::audit_verify::<TC>(vec![h0.hash(), a1.hash(), a2.hash()], pa.clone()).await.is_err() {
+            return Err(AkdError::TestErr("c09 chain: the honest audit did not verify".to_string()));
+        }
+        let spliced = crate::AppendOnlyProof { proofs: vec![pa.proofs[0].clone(), pb.proofs[0].clone()], epochs: vec![0, 1] };
+        Ok(crate::auditor::audit_verify::<TC>(vec![h0.hash(), a1.hash(), b2.hash()], spliced).await.is_ok())
+    }
 }
